@@ -11,6 +11,7 @@ var c16 = &Property{
 	Real:    append([]string{"Message.Answer, NewMessage, WriteTo/WriteToStream, response.WriteStream", "sm.successCEA / errorCEA / handleDWR (sm scenarios)", "diam.SCTPConn demultiplexer and WriteStream (SCTP scenarios)"}, srvReal...),
 	Stubbed: srvStub,
 	Assume:  []string{"quantified over inputs only; the schedule dimension (fragmentation, parked handlers, stream interleaving) is exercised but is not what decides the property"},
+	MustProbes: []string{"writer-stream-pinned", "retry-while-reader-moved-on", "deferred-answer"},
 	Scenarios: []*Scenario{
 		{Name: "tcp-answer", Weight: 4, Bubble: true, Run: c16Tcp},
 		{Name: "sweep-headers", Bubble: true, Run: c16Sweep, SweepN: c16SweepN, QuickSweep: true, Exhaustive: true,
